@@ -251,8 +251,17 @@ func New(c *config.Config) (*Olric, error) {
 	return db, nil
 }
 
-func (db *Olric) preconditionFunc(conn redcon.Conn, _ redcon.Command) bool {
-	err := db.isOperable()
+func (db *Olric) preconditionFunc(conn redcon.Conn, cmd redcon.Command) bool {
+	var err error
+	if len(cmd.Args) > 0 && strings.EqualFold(string(cmd.Args[0]), protocol.Internal.LengthOfPart) {
+		// The coordinator calls LengthOfPart on every listed owner while it prepares the
+		// routing table that is going to bootstrap this node. Waiting for the bootstrap
+		// here makes the coordinator wait for the node while the node waits for the
+		// coordinator's push. The command only reads local partition sizes.
+		err = convertClusterError(db.rt.CheckMemberCountQuorum())
+	} else {
+		err = db.isOperable()
+	}
 	if err != nil {
 		protocol.WriteError(conn, err)
 		return false
